@@ -25,7 +25,7 @@ def getPath : List Row := path locksetTable "DB.Get" ([1, 2] ++ List.range' 5 6)
 /-- `DB.Merge`, the path that reaches the final `return nil` (one record examined) -/
 def mergePath : List Row :=
   path locksetTable "DB.Merge"
-    ([0, 1] ++ List.range' 4 6 ++ List.range' 12 9 ++ [26, 27, 28, 29, 55, 56, 57, 94, 95, 96, 97])
+    ([0, 1] ++ List.range' 4 6 ++ List.range' 12 9 ++ [26, 27, 28, 29, 55, 56, 57, 82, 83, 84, 85, 91, 92, 105, 106, 107, 108])
 /-- a batch session: `NewBatch`, one `Batch.Put` that flushes, `Commit` -/
 def batchSession : List Row :=
   path locksetTable "DB.NewBatch" [0, 1] ++
@@ -40,11 +40,12 @@ example :
     runsFrom dbAct (· == .none) .none putPath = true ∧ putPath.length = 25 ∧
     runsFrom dbAct (· == .none) .none statPath = true ∧
     runsFrom dbAct (· == .none) .none getPath = true ∧
-    runsFrom dbAct (· == .none) .none mergePath = true ∧ mergePath.length = 28 ∧
+    runsFrom dbAct (· == .none) .none mergePath = true ∧ mergePath.length = 34 ∧
     runsFrom dbAct (· == .none) .none batchSession = true ∧ batchSession.length = 67 ∧
     (putPath.map dbAct).contains (.write "reclaimSize") = true ∧
     (statPath.map dbAct).contains (.read "reclaimSize") = true := by decide
 
+set_option maxRecDepth 100000 in
 /-- a reachable state with one thread inside the W section of `Put` (it has taken `db.mu`) while
 another thread has started `Stat` and is blocked at its `RLock` -/
 example : ∃ s, Reachable (tableSys dbAct locksetTable (fun _ => true) (fun _ _ => True)) s ∧
@@ -75,6 +76,7 @@ example :
   decide
 
 
+set_option maxRecDepth 100000 in
 /-- the hypotheses of `C09_no_deadlock` are met by a state with a blocked thread: thread 0 holds
 `db.mu` inside `Put`, thread 1 is blocked at the `RLock` of `Stat`, under Go's writer preference -/
 example : ∃ s, Reachable (tableSys dbAct locksetTable (· == .none)
